@@ -1,0 +1,110 @@
+//go:build verif
+
+package storage
+
+// Contracts checked by /verif (govc). Comment-only file: it adds no code.
+// The ghost ledger (Dex, Dst, Dname, Dver, Dwritten, mkkey) is declared in /verif/lib/driver.spec.
+
+//@ func makeKey
+//@   props C01
+//@   trusted
+//@   pure
+//@   ensures result == mkkey(rlsname, version)
+
+//@ ghost func ledgerWF() bool = forall k string :: Dex[k] ==> k == mkkey(Dname[k], Dver[k])
+
+//@ func (*Storage).Get
+//@   props C01
+//@   requires s != nil && s.Driver != nil
+//@   ensures [found] err == nil ==> result != nil && result.Info != nil && Dex[mkkey(name, version)] && result.Info.Status == Dst[mkkey(name, version)]
+//@   ensures [absent] !Dex[mkkey(name, version)] ==> err != nil
+//@   ensures [readonly] Dex == old(Dex) && Dst == old(Dst) && Dwritten == old(Dwritten)
+
+//@ func (*Storage).Update
+//@   props C01
+//@   requires s != nil && s.Driver != nil && rls != nil && rls.Info != nil
+//@   ensures [ok] result == nil ==> Dex[mkkey(rls.Name, rls.Version)] && Dst == store(old(Dst), mkkey(rls.Name, rls.Version), rls.Info.Status)
+//@   ensures [failed] result != nil ==> Dst == old(Dst)
+//@   ensures [absent] !old(Dex)[mkkey(rls.Name, rls.Version)] ==> result != nil
+//@   ensures [frame] Dex == old(Dex) && Dname == old(Dname) && Dver == old(Dver)
+
+//@ func (*Storage).Delete
+//@   props C01
+//@   requires s != nil && s.Driver != nil
+//@   ensures [ok] err == nil ==> old(Dex)[mkkey(name, version)] && Dex == store(old(Dex), mkkey(name, version), false) && result != nil
+//@   ensures [failed] err != nil ==> Dex == old(Dex)
+//@   ensures [frame] Dst == old(Dst) && Dname == old(Dname) && Dver == old(Dver)
+
+//@ func (*Storage).History
+//@   props C01
+//@   requires s != nil && s.Driver != nil
+//@   ensures [lists-untouched] forall l []*rspb.Release, i int :: !fresh(l) ==> l[i] == old(l[i])
+//@   ensures [fresh-list] err == nil ==> fresh(result)
+//@   ensures [sound] err == nil ==> len(result) > 0 && (forall j int :: 0 <= j && j < len(result) ==> stored(result[j]) && result[j].Name == name)
+//@   ensures [complete] err == nil ==> forall k string :: Dex[k] && Dname[k] == name ==> (exists j int :: 0 <= j && j < len(result) && mkkey(result[j].Name, result[j].Version) == k)
+//@   ensures [distinct] err == nil ==> forall a, b int :: 0 <= a && a < b && b < len(result) ==> result[a].Version != result[b].Version
+//@   ensures [readonly] Dex == old(Dex) && Dst == old(Dst) && Dwritten == old(Dwritten) && Dname == old(Dname) && Dver == old(Dver)
+
+//@ ghost func noneDeployed(name string) bool = forall k string :: !(Dex[k] && Dname[k] == name && Dst[k] == "deployed")
+
+//@ func (*Storage).DeployedAll
+//@   props C01
+//@   requires s != nil && s.Driver != nil
+//@   ensures [none] err != nil && errIs(err, driver.ErrNoDeployedReleases) ==> noneDeployed(name)
+//@   ensures [lists-untouched] forall l []*rspb.Release, i int :: !fresh(l) ==> l[i] == old(l[i])
+//@   ensures [fresh-list] err == nil ==> fresh(result)
+//@   ensures [sound] err == nil ==> len(result) > 0 && (forall j int :: 0 <= j && j < len(result) ==> stored(result[j]) && result[j].Name == name && result[j].Info.Status == "deployed")
+//@   ensures [complete] err == nil ==> forall k string :: Dex[k] && Dname[k] == name && Dst[k] == "deployed" ==> (exists j int :: 0 <= j && j < len(result) && mkkey(result[j].Name, result[j].Version) == k)
+//@   ensures [readonly] Dex == old(Dex) && Dst == old(Dst) && Dwritten == old(Dwritten) && Dname == old(Dname) && Dver == old(Dver)
+
+//@ func (*Storage).Last
+//@   props C01
+//@   requires s != nil && s.Driver != nil
+//@   ensures [lists-untouched] forall l []*rspb.Release, i int :: !fresh(l) ==> l[i] == old(l[i])
+//@   ensures [stored] err == nil ==> stored(result) && result.Name == name
+//@   ensures [highest] err == nil ==> forall v int :: Dex[mkkey(name, v)] && Dname[mkkey(name, v)] == name ==> v <= result.Version
+//@   ensures [readonly] Dex == old(Dex) && Dst == old(Dst) && Dwritten == old(Dwritten)
+
+//@ func (*Storage).Deployed
+//@   props C01
+//@   requires s != nil && s.Driver != nil
+//@   ensures [none] err != nil && errIs(err, driver.ErrNoDeployedReleases) ==> noneDeployed(name)
+//@   ensures [nil-on-error] err != nil ==> result == nil
+//@   ensures [lists-untouched] forall l []*rspb.Release, i int :: !fresh(l) ==> l[i] == old(l[i])
+//@   ensures [stored] err == nil ==> stored(result) && result.Name == name && result.Info.Status == "deployed"
+//@   ensures [highest-deployed] err == nil ==> forall v int :: Dex[mkkey(name, v)] && Dname[mkkey(name, v)] == name && Dst[mkkey(name, v)] == "deployed" ==> v <= result.Version
+//@   ensures [readonly] Dex == old(Dex) && Dst == old(Dst) && Dwritten == old(Dwritten)
+
+//@ func (*Storage).deleteReleaseVersion
+//@   props C01
+//@   requires s != nil && s.Driver != nil
+//@   ensures [ok] result == nil ==> old(Dex)[mkkey(name, version)] && Dex == store(old(Dex), mkkey(name, version), false)
+//@   ensures [failed] result != nil ==> Dex == old(Dex)
+//@   ensures [frame] Dst == old(Dst) && Dname == old(Dname) && Dver == old(Dver)
+
+//@ ghost func isLastDeployed(name string, v int) bool = Dex[mkkey(name, v)] && Dname[mkkey(name, v)] == name && Dst[mkkey(name, v)] == "deployed" && (forall w int :: Dex[mkkey(name, w)] && Dname[mkkey(name, w)] == name && Dst[mkkey(name, w)] == "deployed" ==> w <= v)
+
+//@ func (*Storage).removeLeastRecent
+//@   props C01
+//@   requires s != nil && s.Driver != nil && ledgerWF()
+//@   ensures [only-removes] forall k string :: Dex[k] ==> old(Dex)[k]
+//@   ensures [only-this-release] forall k string :: old(Dex)[k] && !Dex[k] ==> Dname[k] == name
+//@   ensures [never-the-deployed-one] forall v int :: old(isLastDeployed(name, v)) ==> Dex[mkkey(name, v)]
+//@   ensures [statuses-untouched] Dst == old(Dst) && Dname == old(Dname) && Dver == old(Dver)
+//@   ensures [disabled] maximum < 0 ==> Dex == old(Dex) && result == nil
+//@   loop 1 invariant [history] forall j int :: 0 <= j && j < len(h) ==> h[j] != nil && h[j].Name == name && Dname[mkkey(name, h[j].Version)] == name
+//@   loop 1 invariant [candidates] forall p int :: 0 <= p && p < len(toDelete) ==> toDelete[p] != nil && toDelete[p].Name == name && Dname[mkkey(name, toDelete[p].Version)] == name && (lastDeployed != nil ==> toDelete[p].Version != lastDeployed.Version)
+//@   loop 2 invariant [only-removes] forall k string :: Dex[k] ==> old(Dex)[k]
+//@   loop 2 invariant [only-candidates] forall k string :: old(Dex)[k] && !Dex[k] ==> (exists p int :: 0 <= p && p < #iter && k == mkkey(name, toDelete[p].Version))
+//@   loop 2 invariant [frame] Dst == old(Dst) && Dname == old(Dname) && Dver == old(Dver)
+
+//@ func (*Storage).Create
+//@   props C01
+//@   requires s != nil && s.Driver != nil && rls != nil && rls.Info != nil && ledgerWF()
+//@   ensures [created] err == nil ==> Dex[mkkey(rls.Name, rls.Version)] && Dst[mkkey(rls.Name, rls.Version)] == rls.Info.Status && Dname[mkkey(rls.Name, rls.Version)] == rls.Name && Dver[mkkey(rls.Name, rls.Version)] == rls.Version
+//@   ensures [only-prunes] forall k string :: Dex[k] && k != mkkey(rls.Name, rls.Version) ==> old(Dex)[k]
+//@   ensures [prunes-this-release-only] forall k string :: old(Dex)[k] && !Dex[k] ==> old(Dname)[k] == rls.Name
+//@   ensures [never-prunes-the-deployed-one] forall v int :: old(isLastDeployed(rls.Name, v)) ==> Dex[mkkey(rls.Name, v)]
+//@   ensures [failure-adds-nothing] err != nil ==> forall k string :: Dex[k] ==> old(Dex)[k]
+//@   ensures [other-statuses-untouched] forall k string :: k != mkkey(rls.Name, rls.Version) ==> Dst[k] == old(Dst)[k] && Dname[k] == old(Dname)[k] && Dver[k] == old(Dver)[k]
+//@   ensures [well-formed] ledgerWF()
